@@ -43,7 +43,7 @@ def memOf (n : Node) : MKind → Mem
   | .plain => ⟨n.size, n.align, n.kind, false, false, false, false⟩
   | .optional => ⟨n.size + max discSize n.align, max discSize n.align, n.kind, false, false, false, false⟩
   | .fixed c => ⟨n.size * c, n.align, n.kind, false, false, true, true⟩
-  | .dyn _ => ⟨0, n.align, n.kind, true, false, true, false⟩
+  | .dyn _ _ => ⟨0, n.align, n.kind, true, false, true, false⟩
   | .limited _ c => ⟨n.size * c, n.align, n.kind, false, false, true, true⟩
   | .greedy => ⟨0, n.align, n.kind, false, true, true, false⟩
 
